@@ -14,6 +14,7 @@
     html_roundtrip_partial xhtml_roundtrip_partial html_render_roundtrip_partial xhtml_render_roundtrip_partial
     html_roundtrip_tree_partial xhtml_roundtrip_tree_partial html_roundtrip_tree_ns_partial
     xhtml_roundtrip_tree_ns_partial xhtml_roundtrip_cdata_partial cdata_end_not_recovered
+    html_roundtrip_prolog_partial xhtml_roundtrip_prolog_partial pi_gt_not_recovered_html
     rawtext_endtag_not_recovered comment_dashes_not_recovered attr_ws_not_recovered_xhtml
     markup_text_not_recovered raw_table_matches_reader normEol_id doctype_table_is_w3c
 -/
@@ -21,6 +22,7 @@ import Genshi.Lemmas.ReaderXhtml
 import Genshi.Lemmas.ReaderTree
 import Genshi.Lemmas.ReaderTreeNs
 import Genshi.Lemmas.ReaderXhtmlCdata
+import Genshi.Lemmas.ReaderPrologSim
 import Genshi.Lemmas.Output
 import Genshi.Lemmas.OutputFlatten
 import Genshi.Model.OutputPipeline
@@ -505,6 +507,52 @@ example : tokens true (loop .xhtml {} true {}
       [.start ['p'] [], .text ['a'] false, .startCdata, .text ['<', ']', ']'] false, .endCdata, .text ['&'] false,
        .end_ ['p']]).flatten =
     some [.start ['p'] [] false, .text ['a', '<', ']', ']', '&'], .end_ ['p']] := by decide
+
+/-- html, the whole output language: as `html_roundtrip_partial`, plus processing instructions
+    (read back as `target data?`, html.parser's convention; hypothesis: no `>` inside) and DOCTYPE
+    events (the first one is written and its literal `name[ PUBLIC "…"][ SYSTEM][ "…"]` is read
+    back verbatim, followed by the line feed as character data; later ones are not written;
+    hypothesis `dtScan`: the literal is well quoted). -/
+theorem html_roundtrip_prolog_partial (o : Opts) (useCache : Bool) (evs : List FEv)
+    (hok : HtmlOkAllP false false evs) (hend : (foldP evs {} false).1.raw = false) :
+    tokens false (loop .html o useCache {} evs).flatten = some (htmlExpectedP evs) := by
+  have hl : loop .html o useCache {} evs = serSpec .html o {} evs := by
+    cases useCache
+    · exact loop_nocache_eq_spec .html o evs {}
+    · exact loop_cache_eq_spec .html o evs {} (cacheOk_nil .html o)
+  rw [hl]; exact html_tokensP o evs hok hend
+
+/-- xhtml, the whole output language at tokenizer level: CDATA sections, processing instructions
+    (hypothesis: no `?>` inside), DOCTYPE events (first one written, literal read back verbatim)
+    and the XML declaration (written once, only with `drop_xml_decl=False`; read back as the
+    instruction `xml version="…" …`). -/
+theorem xhtml_roundtrip_prolog_partial (o : Opts) (useCache : Bool) (evs : List FEv)
+    (hok : XhtmlOkAllP o false {} evs) (hend : (foldXP o evs {} {}).1.cd = none) :
+    tokens true (loop .xhtml o useCache {} evs).flatten = some (xhtmlExpectedP o evs) := by
+  have hl : loop .xhtml o useCache {} evs = serSpec .xhtml o {} evs := by
+    cases useCache
+    · exact loop_nocache_eq_spec .xhtml o evs {}
+    · exact loop_cache_eq_spec .xhtml o evs {} (cacheOk_nil .xhtml o)
+  rw [hl]; exact xhtml_tokensP o evs hok hend
+
+def exProlog : List FEv :=
+  [.xmlDecl ['1', '.', '0'] none (-1), .doctype ['h', 't', 'm', 'l'] none (some ['a', '"', 'b']),
+   .doctype ['x'] none none, .start ['p'] [], .pi ['x'] ['y'], .text ['<'] false, .end_ ['p']]
+
+example : tokens false (loop .html {} true {} exProlog).flatten =
+    some [.doctype ['h','t','m','l',' ','S','Y','S','T','E','M',' ','\'','a','"','b','\''], .text ['\n'],
+          .start ['p'] [] false, .pi ['x', ' ', 'y', '?'], .text ['<'], .end_ ['p']] := by decide
+
+example : tokens true (loop .xhtml ⟨false⟩ true {} exProlog).flatten =
+    some [.pi ['x','m','l',' ','v','e','r','s','i','o','n','=','"','1','.','0','"'], .text ['\n'],
+          .doctype ['h','t','m','l',' ','S','Y','S','T','E','M',' ','\'','a','"','b','\''], .text ['\n'],
+          .start ['p'] [] false, .pi ['x', ' ', 'y'], .text ['<'], .end_ ['p']] := by decide
+
+/-- a processing instruction whose data contains `>` is cut short by an HTML parser (known finding
+    C08-pi-gt-html) -/
+theorem pi_gt_not_recovered_html :
+    let evs : List FEv := [.pi ['x'] ['a', '>', 'b']]
+    tokens false (loop .html {} true {} evs).flatten ≠ some (htmlExpectedP evs) := by decide
 
 /-- `]]>` inside a CDATA section ends it early (limit of the format) -/
 theorem cdata_end_not_recovered :
